@@ -106,7 +106,7 @@ def build_facts(config="default", repo=REPO, quiet=False):
                 pass
         for old in olds[:-5] if len(olds) > 5 else []:
             # never remove a directory another process may still be loading
-            if now - os.path.getmtime(old) > 1800:
+            if now - os.path.getmtime(old) > 600:
                 shutil.rmtree(old, ignore_errors=True)
         tmpd = d + ".tmp"
         shutil.rmtree(tmpd, ignore_errors=True)
